@@ -85,14 +85,24 @@ theorem lockEv_shape (h : Heap) (i : Nat) : SameShape h (lockEv h i).1 := by
   · exact SameShape.refl h
   · exact (propLockF_le _ _ _ _).1
 
+theorem shareNode_shape (acc : Heap) (j : Nat) : SameShape acc (shareNode acc j) := by
+  unfold shareNode; split
+  · exact (propLockF_le _ _ _ _).1
+  · exact lockEv_shape acc j
+
+theorem inv_shareNode {acc : Heap} (ia : Inv acc) {j : Nat} (hj : j < acc.size) : Inv (shareNode acc j) := by
+  unfold shareNode; split
+  · exact inv_propLock_root ia hj
+  · exact inv_lockEv ia hj
+
 theorem inv_shareEv {h : Heap} (hinv : Inv h) {i : Nat} (hi : i < h.size) : Inv (shareEv h i) := by
   unfold shareEv
-  have := foldl_inv' (fun acc j => (lockEv acc j).1) (fun acc => Inv acc ∧ SameShape h acc)
+  have := foldl_inv' shareNode (fun acc => Inv acc ∧ SameShape h acc)
     (postOrderF (i + 1) h i)
     (fun acc j hj ⟨ia, sa⟩ => by
       have hjs : j < acc.size := by
         rw [sa.1]; have := (postOrderF_mem _ _ _ _ hj).le hinv.ordered; omega
-      exact ⟨inv_lockEv ia hjs, sa.trans (lockEv_shape acc j)⟩)
+      exact ⟨inv_shareNode ia hjs, sa.trans (shareNode_shape acc j)⟩)
     h ⟨hinv, SameShape.refl h⟩
   exact this.1
 
